@@ -1,6 +1,8 @@
 """C05 — bucket lifecycle behaves as a keyed map (decidable clauses)."""
 import ast
 
+from ..rules_commit import check_no_rollback
+
 from ..cfg import cfg_of, membership
 from ..model import norm, parent, walk_own, walk_with_nested_exprs
 from ..rules_store import bparam, is_param_ref, memory_containers
@@ -269,6 +271,53 @@ def caches_follow(prog, rep):
     rep.check("self.bucket_keys = {bucket.id: bucket.key for bucket in buckets}" in t and "buckets = BucketModel.select()" in t, "CACHES", ub.short, "rebuilds from all rows", "{id: key for every BucketModel row}", "the key cache is not rebuilt from all bucket rows", ub.loc())
 
 
+def container_eviction(prog, rep):
+    """every keyed container a class keeps on self is emptied of the bucket's entry by its delete_bucket"""
+    rep.rule("CACHES-ALL", "for Datastore and each backend: every attribute of self that some method stores into by key (self.A[k] = v / setdefault) is, in that class's delete_bucket, either evicted (del self.A[..] / self.A.pop(..) / clear()) or rebuilt wholesale (self.A = ... in delete_bucket or in a method it calls); an entry that survives the bucket answers for its successor of the same id or row key")
+    n = 0
+    for cname in ("Datastore", "MemoryStorage", "PeeweeStorage", "SqliteStorage"):
+        ci = prog.cls(cname)
+        keyed = {}
+        for m in ci.methods.values():
+            for x in walk_own(m.node):
+                tg = []
+                if isinstance(x, ast.Assign):
+                    tg = x.targets
+                elif isinstance(x, (ast.AugAssign, ast.AnnAssign)):
+                    tg = [x.target]
+                for t in tg:
+                    if isinstance(t, ast.Subscript) and isinstance(t.value, ast.Attribute) and isinstance(t.value.value, ast.Name) and t.value.value.id == "self":
+                        keyed.setdefault(t.value.attr, (m, x))
+                if isinstance(x, ast.Call) and isinstance(x.func, ast.Attribute) and x.func.attr == "setdefault" and isinstance(x.func.value, ast.Attribute) and norm(x.func.value.value) == "self":
+                    keyed.setdefault(x.func.value.attr, (m, x))
+        d = ci.methods.get("delete_bucket")
+        if d is None:
+            continue
+        # methods of the class that delete_bucket calls on self (one level is what the code uses)
+        scope_fns = [d] + [ci.methods[c.func.attr] for c in walk_own(d.node) if isinstance(c, ast.Call) and isinstance(c.func, ast.Attribute) and norm(c.func.value) == "self" and c.func.attr in ci.methods]
+        for a, (m, site) in sorted(keyed.items()):
+            n += 1
+            ok = False
+            for f in scope_fns:
+                for x in walk_own(f.node):
+                    if isinstance(x, ast.Delete) and any(isinstance(t, ast.Subscript) and norm(t.value) == f"self.{a}" for t in x.targets):
+                        ok = True
+                    if isinstance(x, ast.Call) and isinstance(x.func, ast.Attribute) and x.func.attr in ("pop", "clear") and norm(x.func.value) == f"self.{a}":
+                        ok = True
+                    if isinstance(x, ast.Assign) and any(norm(t) == f"self.{a}" for t in x.targets):
+                        ok = True
+            rep.check(ok, "CACHES-ALL", d.short, f"self.{a}", "evicted or rebuilt when a bucket is deleted", f"self.{a} is filled by key in {m.short} (line {site.lineno}) but {d.short} neither evicts the deleted bucket's entry nor rebuilds it: after delete + re-create (same id, or a recycled row key) the stale entry answers for the new bucket", d.loc(), expected=f"del self.{a}[...] / self.{a}.pop(...) / self.{a} = ... in {d.short}", found="no eviction")
+    rep.floor("keyed containers on self", n, 3)
+    # the handle cache is filled only for buckets that exist
+    gi = prog.func("Datastore.__getitem__")
+    gg = cfg_of(gi)
+    stores = [x for x in walk_own(gi.node) if isinstance(x, ast.Assign) and any(isinstance(t, ast.Subscript) and norm(t.value) == "self.bucket_instances" for t in x.targets)]
+    if stores:
+        r = gg.reach_filtered(gg.entry, lambda u, v, lab: membership(lab, "bucket_id", "self.buckets()") is not True)
+        for st in stores:
+            rep.check(gg.node_of(st) not in r, "CACHES-ALL", gi.short, "handle cached only for existing buckets", "the store into bucket_instances is dominated by `bucket_id in self.buckets()`", "a Bucket handle is cached before (or without) checking that the bucket exists: after a failed lookup the handle stays cached, and later lookups of the missing bucket succeed", gi.loc(st))
+
+
 def not_found(prog, rep):
     rep.rule("NOT-FOUND", "update_bucket, delete_bucket and get_metadata of each backend reach `raise ValueError` (own body or a resolved callee) on the path where the bucket was not found: else of the membership test (memory, peewee); rowcount != 1 / fetchone() is None (sqlite)")
     for cname in ("MemoryStorage", "PeeweeStorage", "SqliteStorage"):
@@ -343,10 +392,16 @@ def check(prog, rep):
     guarded_updates(prog, rep)
     delete_coverage(prog, rep)
     caches_follow(prog, rep)
+    container_eviction(prog, rep)
     not_found(prog, rep)
+    # a failed (or any) bucket operation must not roll back the shared open transaction
+    check_no_rollback(prog, rep)
 
 
 VARIANTS = [
+    ("B failed delete rolls the open transaction back", SQ, "        self.commit()\n        if cursor.rowcount != 1:\n            raise ValueError(\"Bucket did not exist, could not delete\")", "        if cursor.rowcount != 1:\n            self.conn.rollback()\n            raise ValueError(\"Bucket did not exist, could not delete\")\n        self.commit()", "NO-ROLLBACK"),
+    ("B handle cached before the existence check", DS, "            if bucket_id in self.buckets():\n                bucket = Bucket(self, bucket_id)\n                self.bucket_instances[bucket_id] = bucket\n            else:", "            self.bucket_instances[bucket_id] = Bucket(self, bucket_id)\n            if bucket_id not in self.buckets():", "CACHES-ALL"),
+    ("B peewee metadata cache never evicted on delete", PW, "            bucket = BucketModel.get(\n                BucketModel.key == self.bucket_keys[bucket_id]\n            ).json()\n            return bucket", "            key = self.bucket_keys[bucket_id]\n            if not hasattr(self, \"_md\"):\n                self._md = {}\n            if key not in self._md:\n                self._md[key] = BucketModel.get(BucketModel.key == key).json()\n            return dict(self._md[key])", "CACHES-ALL"),
     ("B sqlite delete_bucket keeps events", SQ, '        self.conn.execute(\n            "DELETE FROM events WHERE bucketrow IN (SELECT rowid FROM buckets WHERE id = ?)",\n            [bucket_id],\n        )\n', "", "DELETE-ALL"),
     ("B peewee delete_bucket keeps events", PW, "            EventModel.delete().where(\n                EventModel.bucket == self.bucket_keys[bucket_id]\n            ).execute()\n", "", "DELETE-ALL"),
     ("B memory delete_bucket keeps the event list", ME, "        if bucket_id in self.db:\n            del self.db[bucket_id]\n", "", "DELETE-ALL"),
